@@ -233,6 +233,12 @@ def run(prog, R):
             tp = c.target_path()
             if tp.startswith('memchr::') and c.name in ('memchr', 'new', 'memrchr', 'memchr_iter'):
                 v = t.args[0].const_int()
+                # only searches in the reader buffer split records / lines; a search inside a line that was already cut
+                # (e.g. for the space behind the id) is not a line split
+                hay = roots_of(b, t.args[1], through_calls=index_through) if len(t.args) > 1 else []
+                on_buffer = any(r[0] == 'call' and is_buffer_call(prog, r[1].callee) for r in hay) or any(r[0] == 'arg' and r[-1] and r[-1][0][1] in ('buffer', 'buf_reader') for r in hay)
+                if not on_buffer and v != 10:
+                    continue
                 R.add('SPLIT-LF', b, 'memchr', v == 10, site(b, t.line), '%s(needle=%s)' % (tp, t.args[0].pretty()))
             elif c.is_('slice::split', 'core::slice::split', 'slice::splitn', 'core::slice::splitn'):
                 rs = roots_of(b, t.args[0], through_calls=index_through)
@@ -373,8 +379,28 @@ def epos_rules(prog, R, trimmer):
                             same = all(q[0] == 'arg' and b.local_tys[q[1]].endswith('RecordPos') for q in lhs)
                             if c == ('enum', 'fastq::RecordPos', 'Head') and same and r[1].callee.path != 'std::cmp::PartialOrd::ge':
                                 ok_id = True
+                    how = 'comparison with Head'
+                    if not ok_id and not b.cfg.natural_loops():
+                        # `let parse_id = match pos { Head => false, _ => true }`: decided path by path (scev): on every path to
+                        # the call the flag is a literal, false exactly on the Head arm of a switch on the part
+                        from scev import Sym, Aff, Path
+                        init = Path()
+                        init.env[1] = Aff.sym(('self',))
+                        seen_ = []
+                        for p_ in Sym(prog, b).run(0, init=init):
+                            for (bx, tx, ax) in p_.effects:
+                                if tx is pt and len(ax) == 3 and isinstance(ax[2], Aff) and ax[2].is_const():
+                                    head_arm = None
+                                    for (cx_, d_, tk_) in p_.conds:
+                                        s1 = d_.single() if isinstance(d_, Aff) else None
+                                        if isinstance(s1, tuple) and s1[0] == 'discr' and isinstance(s1[1], tuple) and s1[1][0] == 'H' and b.local_tys[s1[1][1]].endswith('RecordPos'):
+                                            head_arm = (tk_ == 0)
+                                    seen_.append((head_arm, ax[2].c))
+                        if seen_ and all(h is not None for h, _ in seen_) and all((fl == 0) == h for h, fl in seen_) and any(h for h, _ in seen_) and any(not h for h, _ in seen_):
+                            ok_id = True
+                            how = 'match on the part: false exactly on the Head arm'
                     R.add('EPOS-1', b, '%s#%d' % (v, count[v]), ok_off and ok_id, site(b, s.line),
-                          'UnexpectedEnd: line offset <- the part where the search stopped: %s; id iff part > Head: %s' % (ok_off, ok_id))
+                          'UnexpectedEnd: line offset <- the part where the search stopped: %s; id iff part > Head: %s (%s)' % (ok_off, ok_id, how))
                 # EPOS-2
                 if v in MARKER:
                     fo = copy_origin(b, fields['found'], du)
@@ -401,7 +427,7 @@ def epos_rules(prog, R, trimmer):
                         if idx:
                             ir = roots_of(b, Place({'l': idx[0]['local'], 'p': []}), du)
                             at = bool(ir) and all(q[0] == 'arg' and q[1] == 1 and [f[1] for f in q[-1]] == want_field for q in ir)
-                    R.add('EPOS-2', b, '%s#%d' % (v, count[v]), okc and at, site(b, s.line),
+                    R.add('EPOS-2', b, '%s#%d' % (v, count[v]), okc and at, site(b, s.line), undecided=(not (okc and at)) and not decides_markers(b), detail=
                           'found is the byte compared with %r: %s; read at self.%s: %s' % (chr(MARKER[v]), okc, '.'.join(want_field), at))
                 if v == 'UnequalLengths':
                     # EPOS-3 / LEN-1
@@ -418,7 +444,9 @@ def epos_rules(prog, R, trimmer):
                                     # that accessor is a trimmed line site
                                     okn = cb.path in GOOD_SITES
                                     lens[nm] = lt
-                        R.add('EPOS-3', b, 'reported-%s' % nm, okn, site(b, s.line), 'field %s <- len(trimmed accessor `%s`): %s' % (nm, nm, okn))
+                        # lengths handed in by the function that measured them (detection / reporting split): not judged here
+                        handed_in = bool(r) and all(q[0] in ('arg',) and q[1] != 1 for q in r) or (bool(r) and not decides_markers(b) and all(q[0] in ('arg', 'call') for q in r) and not okn)
+                        R.add('EPOS-3', b, 'reported-%s' % nm, okn, site(b, s.line), 'field %s <- len(trimmed accessor `%s`): %s' % (nm, nm, okn), undecided=(not okn) and handed_in)
                     decided = False
                     if len(lens) == 2:
                         lt_ids = set(id(x) for x in lens.values())
@@ -438,7 +466,7 @@ def epos_rules(prog, R, trimmer):
                                         # every path to the error passes the "lengths differ" edge
                                         if ne_edge != a and b.cfg.dominates(ne_edge, blk.idx):
                                             decided = True
-                    R.add('LEN-1', b, 'verdict-on-reported-lengths', decided, site(b, s.line),
+                    R.add('LEN-1', b, 'verdict-on-reported-lengths', decided, site(b, s.line), undecided=(not decided) and not decides_markers(b), detail=
                           'the UnequalLengths error %s' % ('is reached only through "trimmed seq length != trimmed qual length" (the lengths it reports)' if decided else 'can be reached without the trimmed lengths having been compared (e.g. on raw line extents only: a CRLF record without final terminator is rejected with seq == qual)'))
     len2_rule(prog, R, trimmer)
     len3_rule(prog, R)
@@ -511,8 +539,9 @@ def epos_rules(prog, R, trimmer):
             # ... and it is the FIRST piece of the split (mutation survey: `.next_back()` passes the suite)
             sels = [c.path for c in calls if c.path in ('std::iter::Iterator::next', 'std::iter::Iterator::nth', 'std::iter::Iterator::last',
                                                          'std::iter::DoubleEndedIterator::next_back', 'std::iter::DoubleEndedIterator::nth_back')]
+            no_split = not any(c.is_('slice::split', 'core::slice::split', 'slice::splitn', 'core::slice::splitn') for c in calls)
             from_head = from_head and sels == ['std::iter::Iterator::next']
-            R.add('EPOS-5', f, 'id-guard', g_flag and g_len and from_head and sep == 32, site(f, st.line),
+            R.add('EPOS-5', f, 'id-guard', g_flag and g_len and from_head and sep == 32, site(f, st.line), undecided=(g_flag and g_len and no_split and any(c.name == 'head' for c in calls)), detail=
                   'id extracted only if requested (%s) and header extent > 1 (%s); taken as the first piece of head() split at 0x%s (selectors %s)' % (g_flag, g_len, '%02x' % sep if sep is not None else '?', [x.rsplit('::', 1)[-1] for x in sels]))
     R.floor('UNIT-4', 1)
     R.floor('EPOS-5', 1)
@@ -572,7 +601,8 @@ def epos_rules(prog, R, trimmer):
                     t = blk.term
                 formatted = False
                 for l in read_locals:
-                    for (k, t, i, via) in forward_sinks(b, l, through={'std::char::methods::escape_default', 'std::option::Option::as_ref'}):
+                    for (k, t, i, via) in forward_sinks(b, l, through={'std::char::methods::escape_default', 'std::option::Option::as_ref', 'std::convert::From::from', 'std::convert::Into::into',
+                                                                           'std::string::ToString::to_string', 'core::char::from_u32', 'std::char::from_u32'}):
                         if k == 'call' and t.callee and (t.callee.path.startswith('core::fmt::rt::Argument::new_') or t.callee.path == 'std::fmt::Display::fmt'):
                             formatted = True
                         if k in ('switch', 'discr') and fd['ty'].startswith('std::option::Option'):
@@ -1071,6 +1101,18 @@ def count_len(b, op):
     return None
 
 
+def decides_markers(b):
+    """does this function itself compare bytes with the record markers '@' / '+' (switch arm or == / != constant)?
+    A function that only *reports* a defect found elsewhere (detection and reporting split into two functions) does not."""
+    for blk in b.blocks:
+        if blk.term.k == 'switch' and any(v in (64, 43) for v, _ in blk.term.targets):
+            return True
+        for st in blk.stmts:
+            if st.k == 'assign' and st.rv.k == 'bin' and st.rv.j['op'] in ('Eq', 'Ne') and any(o.const_int() in (64, 43) for o in st.rv.ops):
+                return True
+    return False
+
+
 def head_guard_ok(prog, f):
     """every path of the position helper that slices the header (BufferPosition::head) is taken under
     conditions that imply a non-negative slice extent hi - lo (solved symbolically, whatever the guard looks like)"""
@@ -1112,6 +1154,9 @@ def len3_rule(prog, R):
         R.anchor_missing('LEN-3', 'the validator and the seq / qual slice accessors of fastq::BufferPosition')
         return
     v = vals[0]
+    if not decides_markers(v):
+        R.undecided('LEN-3', v, 'validator-shape', site(v, v.span['lo']), 'the function that constructs UnequalLengths does not itself test the record (detection and reporting are split): not judged')
+        return
     bp = ('f', ('self',), None, 'buf_pos')
     sr, qr = slice_range(prog, acc['seq'], bp), slice_range(prog, acc['qual'], bp)
     if not sr or not qr or not all(isinstance(x, Aff) for x in sr + qr):
@@ -1162,6 +1207,9 @@ def len2_rule(prog, R, trimmer):
         R.anchor_missing('LEN-2', 'the validator (function constructing UnequalLengths)')
         return
     v = vals[0]
+    if not decides_markers(v):
+        R.undecided('LEN-2', v, 'validator-shape', site(v, v.span['lo']), 'the function that constructs UnequalLengths does not itself test the record (detection and reporting are split): not judged')
+        return
     du = DefUse(v)
     # trimmed-equality edges: switches on Ne/Eq of len(trimmed seq) / len(trimmed qual)
     def trimmed_len_terms():
